@@ -188,6 +188,8 @@ func c12Case(env *Env, tape *sim.Tape) *CaseOut {
 			op.ContentLength = fmt.Sprint(n)
 		}
 		op.Status = []int{0, 200, 404}[statusMode]
+		op.Method = []string{"", "GET", "HEAD", "POST"}[int(mask>>3)%4]
+		op.EarlyHints = (mask>>5)%8 == 7
 		expectMT = op.ContentType
 		if expectMT == "" {
 			// "falling back to the request path extension": the path, not the query
@@ -265,16 +267,22 @@ func c12Case(env *Env, tape *sim.Tape) *CaseOut {
 	if isHTTP && op.ContentType == "" {
 		out.stat("probe_http_extension_fallback", 1)
 	}
+	if isHTTP && op.EarlyHints {
+		out.stat("probe_http_early_hints_before_content_type", 1)
+	}
+	if isHTTP && op.Method == "HEAD" {
+		out.stat("probe_http_head_request", 1)
+	}
 	if isHTTP && clMode == 1 && op.Status == 0 {
 		out.stat("probe_http_content_length_implicit_header", 1)
 	}
 	out.Sample = map[string]any{"doc": doc.Name, "media_type": callMT, "entry": entryNames[entry], "chunks": chunks,
 		"consumer_buffers": op.ReadBufs, "content_type": op.ContentType, "request_uri": op.RequestURI, "content_length": op.ContentLength,
-		"status": op.Status, "steps": st.Steps, "input": corpus.Short(data, 60)}
+		"status": op.Status, "method": op.Method, "early_hints": op.EarlyHints, "steps": st.Steps, "input": corpus.Short(data, 60)}
 
 	fail := func(kind, detail string) *CaseOut {
-		out.V = &sim.Violation{Kind: kind, Site: site, Detail: detail + fmt.Sprintf(" [doc=%s entry=%s chunks=%v bufs=%v ct=%q uri=%q cl=%q status=%d input=%q]",
-			doc.Name, entryNames[entry], chunks, op.ReadBufs, op.ContentType, op.RequestURI, op.ContentLength, op.Status, corpus.Short(data, 100))}
+		out.V = &sim.Violation{Kind: kind, Site: site, Detail: detail + fmt.Sprintf(" [doc=%s entry=%s chunks=%v bufs=%v ct=%q uri=%q cl=%q status=%d method=%q earlyhints=%v input=%q]",
+			doc.Name, entryNames[entry], chunks, op.ReadBufs, op.ContentType, op.RequestURI, op.ContentLength, op.Status, op.Method, op.EarlyHints, corpus.Short(data, 100))}
 		return out
 	}
 	if op.Panic != "" {
